@@ -94,6 +94,14 @@ func c05Decode(dec *hio.Decoder, t reflect.Type) (o c05Out) {
 	return
 }
 
+// c05Graph builds a graph of one of the C02 families
+func c05Graph(gc c02Case) (gen.Gen, interface{}) {
+	if gc.Fam == "B" || gc.Fam == "C" {
+		return gen.Gen{Name: "graph:*Node2", T: reflect.TypeOf((*gen.Node2)(nil)), Leaf: "graph"}, c02Build2(gc.N, gc.Edges)
+	}
+	return gen.Gen{Name: "graph:*Node", T: reflect.TypeOf((*gen.Node)(nil)), Leaf: "graph"}, c02Build(gc.N, gc.Edges)
+}
+
 func runC05(a Args) tr.Summary {
 	t := tr.New(a.Out)
 	defer t.Close()
@@ -125,6 +133,18 @@ func runC05(a Args) tr.Summary {
 		if err := json.Unmarshal([]byte(a.Only), &c); err != nil {
 			panic(err)
 		}
+		if strings.HasPrefix(c.Shape, "graph") {
+			var gc c02Case
+			if err := json.Unmarshal([]byte(c.Class), &gc); err != nil {
+				panic(err)
+			}
+			g, v := c05Graph(gc)
+			b, _, _ := safeMarshal(v, false)
+			if c.Cut >= 0 && c.Cut < len(b) {
+				b = b[:c.Cut]
+			}
+			one(c, g, b)
+		}
 		for _, g := range gs {
 			if g.Name == c.Shape && c.Index < len(g.Vals) {
 				b, _, _ := safeMarshal(g.Vals[c.Index].V.Interface(), c.Mode == "simple")
@@ -138,6 +158,47 @@ func runC05(a Args) tr.Summary {
 		return sum
 	}
 	rng := tr.NewRng(a.Seed)
+	// shared and cyclic pointer graphs in reference mode (the C02 families): a back-reference cut by a read
+	// boundary must be resolved like one that is not. Every two-way split and the small fixed chunks.
+	graphN, graphE := 2, 2
+	if a.Tier == "thorough" {
+		graphN, graphE = 2, 3
+	}
+	ngraphs := 0
+	for _, fam := range []string{"", "B", "C"} {
+		for n := 1; n <= graphN; n++ {
+			for _, edges := range c02Graphs(n, graphE, fam) {
+				if len(edges) < n { // a tree: nothing is referred back to
+					continue
+				}
+				gc := c02Case{Kind: "graph", N: n, Edges: edges, Dest: "typed", Mode: "ref", Fam: fam}
+				g, v := c05Graph(gc)
+				b, e1, e2 := safeMarshal(v, false)
+				if e1 != "" || e2 != "" || len(b) > 200 {
+					continue
+				}
+				ngraphs++
+				cls, _ := json.Marshal(gc)
+				base := c05Case{Shape: g.Name, Class: string(cls), Mode: "ref", Cut: -1, Dest: "typed"}
+				for k := 1; k < len(b); k++ {
+					c := base
+					c.Plan = []int{k}
+					one(c, g, b)
+					c.Dest = "iface"
+					one(c, g, b)
+				}
+				for k := 1; k <= 3; k++ {
+					p := []int{}
+					for x := 0; x < len(b); x += k {
+						p = append(p, k)
+					}
+					c := base
+					c.Plan = p
+					one(c, g, b)
+				}
+			}
+		}
+	}
 	maxStreams, maxLen := 700, 90
 	if a.Tier == "thorough" {
 		maxStreams, maxLen = 6000, 400
@@ -240,6 +301,6 @@ func runC05(a Args) tr.Summary {
 	sum.Cases = id
 	sum.Events = t.Lines
 	sum.Nontrivial = len(frags)
-	sum.Extra = tr.Rec{"streams": streams, "max_len": maxLen}
+	sum.Extra = tr.Rec{"streams": streams, "max_len": maxLen, "graph_streams": ngraphs}
 	return sum
 }
